@@ -619,6 +619,11 @@ class MergeFail(Exception):
     pass
 
 
+class AliasMergeFail(MergeFail):
+    """The two arms bind a name to arrays with different aliasing: never poisoned, always forked."""
+
+
+
 class NeedFork(Exception):
     """Raised inside a merge attempt when an inner branch needs a fork."""
 
@@ -1487,10 +1492,11 @@ class Interp(object):
                 a, b = v1.get(k, _UNDEF), v2.get(k, _UNDEF)
                 try:
                     mv[k] = self._merge_value(c, a, b, base)
-                except MergeFail:
+                except MergeFail as exc:
                     pre = f0.get(id(f), {}).get(k, _UNDEF)
-                    if (a is not pre and b is not pre) or not getattr(self, "poison_one_arm", True):
-                        raise          # assigned differently in both arms: fork
+                    if (a is not pre and b is not pre) or not getattr(self, "poison_one_arm", True) \
+                            or isinstance(exc, AliasMergeFail):
+                        raise          # assigned differently in both arms (or aliasing differs): fork
                     mv[k] = _Poison(None)
             merged_frames.append((f, mv))
         ghost = {}
@@ -1531,7 +1537,12 @@ class Interp(object):
             if a.buf is b.buf and _same(a.off, b.off) and _same(a.n, b.n):
                 return a
             if _same(a.n, b.n) and a.kind == b.kind:
-                # value-merge two arrays into a fresh immutable array
+                # value-merge two arrays into a fresh immutable array -- only when neither is a view of a
+                # buffer that existed before the branch (merging would forget that the result aliases it)
+                if base is not None:
+                    old = self.heap.objs[:base]
+                    if any(o is a.buf for o in old) or any(o is b.buf for o in old):
+                        raise AliasMergeFail("array aliasing differs between the arms")
                 get = lambda j, a=a, b=b: z3.If(c, a.at(j), b.at(j))
                 return self.array_from_fn(get, a.n, a.kind, "merge")
             raise MergeFail("arrays of different length")
